@@ -57,6 +57,8 @@ def splice(repo, scratch, kind='kani'):
         os.makedirs(d, exist_ok=True)
         text = open(os.path.join(HERE, 'harness', ent['harness'])).read()
         text = text.replace('//@ORACLE', oracle)
+        for inc in re.findall(r'^//@INCLUDE (\S+)$', text, flags=re.M):
+            text = text.replace('//@INCLUDE ' + inc, open(os.path.join(HERE, 'harness', inc)).read())
         hf = os.path.join(d, modname + '.rs')
         open(hf, 'w').write(text)
         added_files.append(os.path.relpath(hf, scratch))
